@@ -178,6 +178,19 @@ def main(argv=None):
                 violations.append(v)
             checker_errors += r.get('errors', [])
 
+    # ---- thorough tier: engine self-test on a scratch copy (mutants must turn
+    # an obligation red, semantics-preserving edits must stay quiet) -----------
+    selftest = None
+    if a.tier == 'thorough' and spec.get('contracts') and not a.no_proof \
+            and os.environ.get('SC3_REPO') is None:
+        try:
+            from . import selftest as stt
+            selftest = stt.main(only=prop, quiet=True)
+        except SystemExit:
+            pass
+        except Exception:
+            checker_errors.append('selftest crashed: ' + traceback.format_exc()[-800:])
+
     # ---- verdict ----------------------------------------------------------
     new_v, known_v = [], []
     for v in violations:
@@ -218,6 +231,8 @@ def main(argv=None):
             'lemmas': proof.get('lemmas', []),
             'extraction_drops': proof.get('drops', []),
         })
+    if selftest is not None:
+        cov['mutation_selftest'] = selftest
     cov['checker_cmd'] = './check %s --tier %s' % (prop, a.tier)
     cov['trusted_base'] = list(spec.get('trusted_base', [])) + \
         (proof.get('trusted', []) if proof else [])
